@@ -4,7 +4,7 @@
    upper part over the frame (values below the operator's two entries, the enclosing
    environments, ExitGuard :: the enclosing operations). *)
 From Coq Require Import Lia ZifyBool ZifyN ZifyNat.
-From Clvm Require Import Model.Machine Proofs.MachineBasics Proofs.MachineTotal Proofs.MachineFrame.
+From Clvm Require Import Model.Machine Proofs.MachineBasics Proofs.MachineStackCounts Proofs.MachineFrame.
 Open Scope N_scope.
 
 (* [nsteps d M n a b]: n loop iterations lead from (cost, state) a to (cost, state) b *)
